@@ -391,8 +391,15 @@ class CaseTimeout(BaseException):
 _ALARM_FIRED = False
 
 
+_IN_CASE = False
+
+
 def _alarm(signum, frame):
     global _ALARM_FIRED
+    if not _IN_CASE:
+        # a late firing of the repeating timer, outside the case it was set for: switch it off, interrupt nothing
+        signal.setitimer(signal.ITIMER_REAL, 0)
+        return
     _ALARM_FIRED = True      # also remembered: a bare `except:` in the code under test may still swallow the exception
     raise CaseTimeout()
 
@@ -414,29 +421,43 @@ def _worker_init(modname, tscale=1):
         _PROP.worker_init()
 
 
+def _timer_off():
+    global _IN_CASE
+    _IN_CASE = False
+    signal.setitimer(signal.ITIMER_REAL, 0)
+
+
 def _worker_run(case):
-    global _ALARM_FIRED
+    global _ALARM_FIRED, _IN_CASE
     t = getattr(_PROP, 'CASE_TIMEOUT', 10) * _TSCALE
     _ALARM_FIRED = False
     # the timer keeps firing every second after the limit: a bare `except:` inside a loop of the code under test can
     # swallow one CaseTimeout, not all of them
-    signal.setitimer(signal.ITIMER_REAL, float(t), 1.0)
     try:
+        _IN_CASE = True
+        signal.setitimer(signal.ITIMER_REAL, float(t), 1.0)
         try:
             r = _PROP.run_impl(case)
         finally:
-            signal.setitimer(signal.ITIMER_REAL, 0)
+            _timer_off()
         if _ALARM_FIRED:
             # the alarm went off but was swallowed inside the code under test: whatever came back was computed by an
             # interrupted run and is not an observation
             return ['hang']
         return r
     except CaseTimeout:
+        _timer_off()
         return ['hang']
     except RecursionError:
+        _timer_off()
         return ['hang', 'recursion']
     except BaseException as e:  # noqa
+        _timer_off()
         return ['raise', type(e).__name__, str(e)[:200], traceback.format_exc()[-600:]]
+
+
+def _worker_run_chunk(cases):
+    return [_worker_run(c) for c in cases]
 
 
 def run_impl_cases(modname, cases, procs=None, tscale=1, recheck_hangs=True):
@@ -445,8 +466,20 @@ def run_impl_cases(modname, cases, procs=None, tscale=1, recheck_hangs=True):
         return []
     ctx = mp.get_context('fork')
     chunk = max(1, min(50, len(cases) // (procs * 4) or 1))
+    limit = getattr(importlib.import_module(modname), 'CASE_TIMEOUT', 10) * tscale
+    out = []
     with ctx.Pool(procs, initializer=_worker_init, initargs=(modname, tscale)) as pool:
-        out = pool.map(_worker_run, cases, chunksize=chunk)
+        # one asynchronous task per chunk, each awaited with its own deadline: a worker that dies (killed, out of memory)
+        # or sits in C code that no signal interrupts loses its chunk only -- those cases count as not terminating --
+        # instead of blocking the whole run for ever
+        chunks = [cases[i:i + chunk] for i in range(0, len(cases), chunk)]
+        pending = [pool.apply_async(_worker_run_chunk, (c,)) for c in chunks]
+        for c, r in zip(chunks, pending):
+            try:
+                out.extend(r.get(timeout=len(c) * (limit + 2) * 2 + int(os.environ.get('VERIF_LOST_SLACK', 300))))
+            except mp.TimeoutError:
+                out.extend([['hang']] * len(c))      # (worker lost)
+        pool.terminate()
     # a time-out on a loaded machine is not evidence of non-termination: cases that timed out are run again, 24 at a
     # time on few processes with a six-fold limit, and only a second time-out is reported as a hang.  As soon as one
     # batch still contains a time-out the non-termination is real (it is reported with that case) and the remaining
